@@ -62,11 +62,15 @@ def make_case(rc):
         else:
             cells = {'A1': s, 'B1': e}
             hol = h or []
+            ov = []
             for i, row in enumerate(hol):
                 if type(row[0]).__name__ != 'EmptyCell':
-                    cells['F%d' % (i + 1)] = row[0]
+                    if i in (rc.get('ov_rows') or []):
+                        ov.append(I.Cell(0, 5, i, row[0]))       # blank in the workbook, supplied through set_cells
+                    else:
+                        cells['F%d' % (i + 1)] = row[0]
             f = '=NETWORKDAYS(A1,B1%s)' % (',F1:F%d' % len(hol) if hol else '')
-            out = I.eval_formula(f, cells, addr='H9')
+            out = I.eval_formula(f, cells, addr='H9', overrides=ov or None)
             hv = h
         coq = 'CNetdays %s %s %s %s' % (C.cval(s), C.cval(e), C.cval(hv) if hv is not None else 'VNone', C.cres(out))
         nt = True
@@ -134,7 +138,10 @@ def gen_recipes(rng, n):
                     hol.append([{'E': 1}])
                 if rng.random() < 0.3:
                     hol.append(['note'])
-            out.append({'kind': 'netdays', 's': s, 'e': e, 'h': hol, 'via': via})
+            rc2 = {'kind': 'netdays', 's': s, 'e': e, 'h': hol, 'via': via}
+            if hol and via == 'formula' and rng.random() < 0.5:
+                rc2['ov_rows'] = sorted(rng.sample(range(len(hol)), rng.randint(1, len(hol))))
+            out.append(rc2)
         else:
             y = rng.choice([1, 4, 100, 400, 1899, 1900, 2000, 2024, 2100, 9999, rng.randint(1, 9999)])
             m = rng.randint(1, 12)
